@@ -313,7 +313,7 @@ func (c *Ctx) typeAssert(i *ssa.TypeAssert, x Iface) Value {
 	var val Value
 	if x.t != nil {
 		if types.IsInterface(i.AssertedType) {
-			if types.Implements(x.t, i.AssertedType.Underlying().(*types.Interface)) {
+			if isEngineType(x.t) || types.Implements(x.t, i.AssertedType.Underlying().(*types.Interface)) {
 				ok = true
 				val = x
 			}
